@@ -45,6 +45,11 @@ CLASS_TO_FINDING: Dict[str, str] = {
     "C13-unsound:can-close-asset+D5": "D5",
     "C13-unsound:is-updatable+D5": "D5",
     "C13-unsound:is-deletable+D5": "D5",
+    "C13-imprecise:other-member-offset-declared-by-target-only": "D31",
+    "C15-x-comment-attached": "D26",
+    # spellings the property does not name (it says decimal, hex `0x`, octal `0`-prefixed): recorded, not claimed
+    "C15-x-int-0X": "NOTE-outside-claim",
+    "C15-x-int-0o": "NOTE-outside-claim",
 }
 
 
